@@ -187,6 +187,54 @@ def _strip_comments(src):
     return _re.sub(r"//[^\n]*", " ", src)
 
 
+def metavars_in_unsafe(src):
+    """Expression-like metavariables (`$x:expr`, `tt`, `block`, `stmt`, `pat`, `item`) that a macro transcribes
+    *inside* an `unsafe { .. }` block: the caller's tokens are then type-checked in an unsafe context, so client code
+    free of `unsafe` can call unsafe functions through the macro. Returns [(metavariable, fragment kind)]."""
+    import re as _re
+    body = _strip_comments(src)
+    body = _re.sub(r'"(?:\\.|[^"\\])*"', '""', body)
+    kinds = dict(_re.findall(r"\$([A-Za-z_][A-Za-z0-9_]*)\s*:\s*([a-z_]+)", body))
+    risky = {k for k, v in kinds.items() if v in ("expr", "tt", "block", "stmt", "pat", "pat_param", "item", "expr_2021")}
+    out = []
+    i = 0
+    for m in _re.finditer(r"\bunsafe\s*\{", body):
+        j = m.end()
+        depth = 1
+        while j < len(body) and depth:
+            ch = body[j]
+            if ch == "{":
+                depth += 1
+            elif ch == "}":
+                depth -= 1
+            j += 1
+        block = body[m.end():j]
+        for mv in _re.findall(r"\$([A-Za-z_][A-Za-z0-9_]*)", block):
+            if mv in risky and (mv, kinds[mv]) not in out:
+                out.append((mv, kinds[mv]))
+    return out
+
+
+def macro_args_outside_unsafe(chk, prog, c):
+    """Every exported macro (whoever owns its review): no expression-like argument is transcribed inside `unsafe { }`."""
+    ms = prog.f.get("macros")
+    if not chk.anchor("macro inventory from the driver", ms is not None, "(config %s)" % c):
+        return
+    n = 0
+    for m in ms:
+        if not m["public"]:
+            continue
+        n += 1
+        leaked = metavars_in_unsafe(m["source"])
+        chk.inst("macro-arguments-outside-unsafe", "%s[%s]" % (m["path"], c), not leaked,
+                 detail="exported macro `%s` transcribes its argument(s) %s inside an `unsafe { }` block: the caller's expression "
+                        "is type-checked in an unsafe context, so client code that never writes `unsafe` can call unsafe functions "
+                        "(raw pointer constructors, casts, the unsafe cache allocation) through it" % (
+                            m["path"], ", ".join("$%s:%s" % x for x in leaked)),
+                 loc="%s:%s" % (m["span"]["f"], m["span"]["l"]), sample={"macro": m["path"]})
+    chk.floor("exported-macros[%s]" % c, n, 3)
+
+
 def unsafe_macros(chk, prog, owner, c):
     """owner 'C13': macros whose expansion deals in Write / barrier items; owner 'C12': all other exported macros."""
     import re as _re
@@ -205,6 +253,13 @@ def unsafe_macros(chk, prog, owner, c):
         group = "C13" if _re.search(r"\bWrite\b|\bbarrier\b|\bunlock", body) else "C12"
         if group != owner:
             continue
+        leaked = metavars_in_unsafe(m["source"])
+        chk.inst("macro-arguments-outside-unsafe", "%s[%s]" % (m["path"], c), not leaked,
+                 detail="exported macro `%s` transcribes its argument(s) %s inside an `unsafe { }` block: the caller's expression "
+                        "is type-checked in an unsafe context, so client code that never writes `unsafe` can call unsafe functions "
+                        "(raw pointer constructors, casts, the unsafe cache allocation) through it" % (
+                            m["path"], ", ".join("$%s:%s" % x for x in leaked)),
+                 loc="%s:%s" % (m["span"]["f"], m["span"]["l"]), sample={"macro": m["path"]})
         rev = REVIEWED_UNSAFE_MACROS.get(m["path"])
         chk.inst("unsafe-bearing-exported-macro", "%s[%s]" % (m["path"], c), rev is not None,
                  detail="exported macro `%s` expands to code containing `unsafe` and is not in the reviewed table: client code "
